@@ -9,6 +9,7 @@ import (
 	"os"
 	"os/exec"
 	"regexp"
+	"runtime"
 	"strings"
 	"time"
 
@@ -102,6 +103,12 @@ func runChildOnce(bin string, spec proto.Spec, timeout time.Duration) (ends []pr
 	ctx, cancel := context.WithTimeout(context.Background(), timeout)
 	defer cancel()
 	cmd := exec.CommandContext(ctx, bin, "-test.run", "^TestChild$", "-test.timeout", "0")
+	if spec.OneCPU {
+		if ts, err := exec.LookPath("taskset"); err == nil {
+			cpu := spec.From % runtime.NumCPU()
+			cmd = exec.CommandContext(ctx, ts, "-c", fmt.Sprint(cpu), bin, "-test.run", "^TestChild$", "-test.timeout", "0")
+		}
+	}
 	cmd.Env = append(os.Environ(), "VERIF_SPEC="+string(sj), "GORACE=halt_on_error=1 exitcode=66", "GOMAXPROCS="+childGOMAXPROCS(spec))
 	var stderr tailBuffer
 	cmd.Stderr = &stderr
